@@ -96,3 +96,13 @@ def sedpack_io():
         logging.getLogger("sedpack.io.Dataset").setLevel(logging.ERROR)
         _SEDPACK = sedpack
     return _SEDPACK.io
+
+RUSTSIM = os.path.join(VERIF, ".build", "rustsim")
+
+
+def build_rustsim() -> None:
+    import subprocess
+    env = dict(os.environ)
+    env["VERIF_REPO"] = REPO
+    subprocess.run([os.path.join(VERIF, "tools", "build_rustsim.sh")], env=env,
+                   check=True, timeout=1200, capture_output=True)
